@@ -351,9 +351,8 @@ fn do_run(rt: &tokio::runtime::Runtime, w: &mut CaseWriter, self_id: u8, evs: &[
 
 fn do_diff(rt: &tokio::runtime::Runtime, w: &mut CaseWriter, self_id: u8, prev: &Snapshot, new: &Snapshot) {
     let case = format!("diff {:x} {} {}", self_id, show_snapshot(prev), show_snapshot(new));
-    // a subscriber present from the start that polls after each publication: its third poll
-    // yields the change published for `new`
-    let evs = vec![Ev::Sub, Ev::Snap(prev.clone()), Ev::Read, Ev::Snap(new.clone())];
+    // the watcher is started on `prev`, then handed `new`; a receiver that looks at the channel
+    // after each publication sees, the second time, the change published for `new`
     let out = rt.block_on(async {
         let self_addr = addr_of(0xffff);
         let network = RpcNetwork::default();
@@ -394,7 +393,6 @@ fn do_diff(rt: &tokio::runtime::Runtime, w: &mut CaseWriter, self_id: u8, prev: 
         }
         got
     });
-    let _ = evs;
     let Some(c) = out else {
         w.case(&case, "stuck");
         w.fail("watcher-does-not-publish", &case, "");
@@ -643,11 +641,11 @@ fn main() {
 
     // 2. bounded-exhaustive histories
     //    A: 3 ids x 2 addresses (27 snapshots), sequences of length <= 3
-    //    B: 2 ids x 2 addresses (9 snapshots), sequences of length <= 4
+    //    B: 2 ids x 2 addresses (9 snapshots), sequences of length <= 4 (thorough: <= 5)
     //    C: 2 ids x 2 addresses where one id is the node itself, length <= 3
     let seq_a = sweep(&rt, &mut w, 0, &uni3, 3);
     let uni2 = universe(&[1, 2], &[0xa, 0xb], &[me]);
-    let seq_b = sweep(&rt, &mut w, 0, &uni2, 4);
+    let seq_b = sweep(&rt, &mut w, 0, &uni2, if args.thorough() { 5 } else { 4 });
     let uni2s = universe(&[1, 2], &[0xa, 0xb], &[]);
     let seq_c = sweep(&rt, &mut w, 1, &uni2s, 3);
     let exhaustive_cases = w.n;
@@ -668,7 +666,7 @@ fn main() {
     w.finish(&[
         ("diff_pairs_exhaustive", ndiff.to_string()),
         ("sequences_3ids_len_le3", seq_a.to_string()),
-        ("sequences_2ids_len_le4", seq_b.to_string()),
+        ("sequences_2ids_len_le4_quick_le5_thorough", seq_b.to_string()),
         ("sequences_self_in_universe_len_le3", seq_c.to_string()),
         ("exhaustive_cases", exhaustive_cases.to_string()),
         ("random_histories", n_random.to_string()),
